@@ -183,7 +183,9 @@ def physics_run(scn, checkers, nontrivial, sig, extra=None, post=None, **kw):
                 raise Discard(f"rejected:{h.exc[0]}:{h.exc[1][:50]}")
         elif post is not None:
             V += post(sim, h) or []
-        if h.outcome.startswith("raised") and not expected_library_error(h) and not injected(h.exc_obj):
+        if h.outcome == "capped":
+            pass
+        elif h.outcome.startswith("raised") and not expected_library_error(h) and not injected(h.exc_obj):
             h.probe("unexpected-exception:" + h.exc[0])
         # de-duplicate by rule: the first occurrence of every rule is the report
         seen = set()
